@@ -789,19 +789,20 @@ fn apply_in_child(fs: &Stdfs, op: &Op, secs: i32) -> Option<Outcome> {
     }
     unsafe { libc::close(fds[1]) };
     let mut buf: Vec<u8> = vec![];
-    let deadline = std::time::Instant::now() + std::time::Duration::from_secs(secs as u64);
+    // the limit is CPU time of the child (a runaway recursion burns it), so that a child which merely does
+    // not get the CPU on a loaded machine is not mistaken for one; wall clock only as a distant backstop
+    let t0 = std::time::Instant::now();
     let mut timed_out = false;
     loop {
-        let left = deadline.saturating_duration_since(std::time::Instant::now()).as_millis() as i32;
-        if left <= 0 {
+        let cpu = task_stat(Some(pid), 0).map(|x| x.1).unwrap_or(t0.elapsed().as_secs_f64());
+        if cpu >= secs as f64 || t0.elapsed().as_secs() >= 40 * secs as u64 {
             timed_out = true;
             break;
         }
         let mut pfd = libc::pollfd { fd: fds[0], events: libc::POLLIN, revents: 0 };
-        let r = unsafe { libc::poll(&mut pfd, 1, left) };
+        let r = unsafe { libc::poll(&mut pfd, 1, 200) };
         if r == 0 {
-            timed_out = true;
-            break;
+            continue;
         }
         if r < 0 {
             continue;
